@@ -28,6 +28,8 @@ def run(tier, seed):
     inline_universe(rep, "vf.checks:delim_contracts", tier, "processDelimiters / _postProcess / tokenizers", "requires and ensures of the delimiter-pipeline contracts evaluated natively at every call (validates the preconditions their callers must establish)", quick_k=3, thorough_k=4)
     gen_universe(rep, "vf.checks:delim_contracts", "vf.universe:gen_emph", tier, "processDelimiters / _postProcess / tokenizers", "same run-time contract evaluation on delimiter-heavy inputs",
                  ["commonmark", "cm+table+strike"], "all concatenations of <= k pieces over {*, **, _, ~~, ~, a, space, [, ](x), b}", "delimiter universe")
+    import contracts.linkc as LK
+    deductive(rep, "C02", LK.FUNCS, "contracts.linkc")
     import contracts.fragjoin as FJ
     deductive(rep, "C02", FJ.FUNCS, "contracts.fragjoin")
     inline_universe(rep, "vf.checks:inline_contracts", tier, "fragments_join", "requires/ensures of the fragments_join contract evaluated natively at every call (validates the text-neutral precondition)", quick_k=3, thorough_k=4)
@@ -35,7 +37,7 @@ def run(tier, seed):
                  ["commonmark", "cm+table+strike"], "all concatenations of <= k pieces over {*, **, _, ~~, ~, a, space, [, ](x), b}", "delimiter universe")
     rep.explanation = (
         "Mixed. Deductive: StateBlock.push is inlined into every leaf block rule and the postconditions 'tokens appended are balanced, level == entry "
-        "level + depth, nesting/type/tag as specified, block flag set, state.level restored' are discharged for the seven leaf rules. text_join / _join_children are verified: afterwards no child at any image-nesting depth is a text_special and no two adjacent children are text (modular recursion through the summary predicate Joined). blockquote and list_block restore state.level and push matching open/close tokens around the nested block loop. Bounded: the full "
+        "level + depth, nesting/type/tag as specified, block flag set, state.level restored' are discharged for the seven leaf rules. link and image are verified (link_open/link_close at the entry level around a nested tokenize that is entered with posMax on the label's closing bracket; level, posMax and linkLevel restored; image pushes one level-neutral token). text_join / _join_children are verified: afterwards no child at any image-nesting depth is a text_special and no two adjacent children are text (modular recursion through the summary predicate Joined). blockquote and list_block restore state.level and push matching open/close tokens around the nested block loop. Bounded: the full "
         "stream contract of the statement monitored on parse/parseInline output (container interplay is bounded). The delimiter pipeline is verified: the emphasis/strikethrough tokenizers establish the delimiter-list invariant (token indices in range, strictly increasing, one delimiter per marker); processDelimiters is proved safe (no index wraps around, both loops terminate) and to produce forward-pointing, same-marker, injective, never-crossing pairs whose closers are not openers; emphasis._postProcess retags exactly the tokens of matched pairs, consistently (em/em or strong/strong, same markup) and touches nothing else; strikethrough._postProcess never moves or alters a structural token that was present at entry (only text and s_close records move). fragments_join is verified: on exit every token's level obeys the depth law (stated locally: level[k] follows from level[k-1] and the two nestings), no two adjacent tokens are text, for arbitrary entry levels, under the vocabulary precondition that text tokens have nesting 0 (validated at run time).")
     rep.trusted_base += STD_TRUST
     rep.assumptions += ["the delimiter pipeline is verified function by function (tokenizers -> processDelimiters -> _postProcess -> fragments_join); that each function's callers establish its precondition, "
